@@ -82,12 +82,26 @@ def observe_check(arg):
         Configuration.verbose = False
         if opt:
             Configuration.exclude.extend(opt)
-        Configuration.load(Path("."))
-        with contextlib.redirect_stdout(buf):
-            try:
-                check_command([p], False)
-            except typer.Exit as e:
-                code = e.exit_code
+        if not opt:
+            # the way a user reaches it: through the command line parser of codelimit.__main__ (argument conversion included);
+            # with exclusions given as options check_command is called directly (this environment's typer / click pair
+            # cannot parse --exclude)
+            from typer.testing import CliRunner
+
+            from codelimit.__main__ import cli
+
+            res = CliRunner().invoke(cli, ["check", str(p)])
+            if res.exception is not None and not isinstance(res.exception, SystemExit):
+                raise res.exception
+            buf.write(res.output)
+            code = res.exit_code if res.exit_code != 0 else None
+        else:
+            Configuration.load(Path("."))
+            with contextlib.redirect_stdout(buf):
+                try:
+                    check_command([p], False)
+                except typer.Exit as e:
+                    code = e.exit_code
     finally:
         CR.CheckResult.add = orig
         os.chdir("/")
